@@ -213,7 +213,7 @@ func verdictKey(want bool) string {
 func TestC20Predicates(t *testing.T) {
 	defer vlib.Done()
 	const sub = "predicates/satisfaction"
-	vlib.Check(t, vlib.N(800, 12000), func(t *rapid.T) {
+	vlib.Check(t, vlib.N(2500, 12000), func(t *rapid.T) {
 		F, src, st := drawCase(t)
 		tt := abe.TruthTable(F, alphabet)
 		// the two reference evaluators agree (cheap continuous self-test)
@@ -669,7 +669,7 @@ func TestC20Cycle(t *testing.T) {
 	if e == nil {
 		return
 	}
-	vlib.Check(t, vlib.N(22, 260), func(t *rapid.T) {
+	vlib.Check(t, vlib.N(50, 260), func(t *rapid.T) {
 		F, src, _ := drawCase(t)
 		c := &cycleCtx{F: F, src: src, tt: abe.TruthTable(F, alphabet), hard: F.Nots() > 0 || F.RepeatedLabel(), labels: F.Labels()}
 		c.msg = make([]byte, rapid.SampledFrom(msgLens).Draw(t, "msgLen"))
@@ -961,7 +961,7 @@ var soupTokens = []string{"(", ")", ":", "and", "or", "not", "a", "b", "c", "0",
 func TestC20Soup(t *testing.T) {
 	defer vlib.Done()
 	const sub = "soup"
-	vlib.Check(t, vlib.N(500, 6000), func(t *rapid.T) {
+	vlib.Check(t, vlib.N(2000, 10000), func(t *rapid.T) {
 		var s string
 		if rapid.Bool().Draw(t, "fromValid") {
 			F := genFormula(t)
